@@ -5,14 +5,16 @@
    - header [retry_at=<k>]: from op index k on (the retry of the script after DROPALL; GC
      on the same manager, issued only when the capacity is at least the measured need)
      no operation may fail with out-of-memory;
-   - kind=bdd, threads=1, cap < 100 (no background collector below 100 slots, one thread:
-     the allocation sequence is deterministic): the extracted bounded model of
-     coq/Mgr/Oom.v (no cache, sequential recursor) is run on the snapshot taken right
-     before each NOT / binary operator / ITE / VAR / NVAR with the case's capacity and
-     must predict the implementation exactly: out-of-memory or not, the number of stored
-     nodes afterwards (also after a failure: the garbage a failed run leaves behind), and
-     the value table of the result.  [bdd_ok_b] (the hypothesis of the theorems) must
-     hold on every such snapshot. *)
+   - kind=bdd, cap < 100 (no background collector below 100 slots): the extracted bounded
+     model of coq/Mgr/Oom.v (no cache) is run on the snapshot taken right before each
+     NOT / binary operator / ITE / VAR / NVAR with the case's capacity and must predict
+     the implementation exactly: out-of-memory or not (by oom_exact this does not depend
+     on the recursor or the interleaving: it is decided by whether the table of the
+     unbounded run fits), the number of stored nodes afterwards, and the value table of
+     the result.  With one thread (sequential recursor, deterministic allocation
+     sequence) also the number of nodes stored after a FAILED run - the garbage it leaves
+     behind - is predicted; with several threads the store must be full after a failure.
+     [bdd_ok_b] (the hypothesis of the theorems) must hold on every such snapshot. *)
 open Conv
 
 (* ---- trace parsing (self-contained copies of the few helpers of ocaml/dd_types.ml that this
@@ -101,7 +103,7 @@ let bop_of = function
   | "EQUIV" -> Some Model.OEquiv | "NAND" -> Some Model.ONand | "NOR" -> Some Model.ONor
   | "IMP" -> Some Model.OImp | "IMPS" -> Some Model.OImpStrict | _ -> None
 
-type pred = { pcode : int; pcount : int; ptable : vt option; pwhat : string; pdst : int; pstep : int }
+type pred = { pcode : int; pcount : int; pfull : int; ptable : vt option; pwhat : string; pdst : int; pstep : int }
 
 let () =
   iter_cases stdin (fun c ->
@@ -109,7 +111,7 @@ let () =
       let cap = param_int c "cap" (1 lsl 16) in
       let threads = param_int c "threads" 1 in
       let retry_at = param_int c "retry_at" (-1) in
-      let predictable = kname = "bdd" && threads = 1 && cap < 100 in
+      let predictable = kname = "bdd" && cap < 100 in
       let failed = ref false in
       let fail step kind msg =
         stat "bad_C14" 1;
@@ -136,7 +138,13 @@ let () =
                   | Some p ->
                     pending := None;
                     stat "predictions" 1;
-                    if ps.listed <> p.pcount then
+                    if p.pcode = 1 && threads > 1 then (
+                      (* which branch fails first depends on the interleaving; the store is full *)
+                      if ps.listed <> p.pfull then
+                        fail p.pstep "prop"
+                          (Printf.sprintf "%s at capacity %d failed with out-of-memory but %d nodes are stored afterwards (a full store has %d)"
+                             p.pwhat cap ps.listed p.pfull))
+                    else if ps.listed <> p.pcount then
                       fail p.pstep "prop"
                         (Printf.sprintf "%s at capacity %d: %d nodes stored afterwards, the bounded model says %d (%s)"
                            p.pwhat cap ps.listed p.pcount (if p.pcode = 1 then "after the out-of-memory error" else "after the result"))
@@ -215,7 +223,8 @@ let () =
                             match rref with
                             | Some rr -> value_table { ps with snap = s' } { Model.eref = rr; Model.etag = false }
                             | None -> None in
-                          pending := Some { pcode = code; pcount = cnt; ptable = tab; pwhat = ops; pdst = dst; pstep = i })))
+                          pending := Some { pcode = code; pcount = cnt; pfull = max cap ps.listed; ptable = tab; pwhat = ops;
+                                            pdst = dst; pstep = i })))
         c.lines;
       stat "cases" 1;
       stat "steps" (List.length c.lines);
